@@ -33,10 +33,13 @@ def render_lit(l):
 def attr_specs(vec):
     schema, decl, l = vec['schema'], vec['decl'], vec['l']
     nsb = dict(render_schema(schema))['nsb.stone']
-    line = '    a1 %s' % render_type(decl['t'], 'stone_cfg', schema)
-    if decl['d']['k'] != 'absent':
-        line += ' = ' + render_lit(decl['d'])
-    cfg = 'namespace stone_cfg\n\nimport nsb\n\nstruct Route\n%s\n' % line
+    if decl['t']['k'] == 'routeunion':
+        cfg = 'namespace stone_cfg\n\nunion Route\n    a1\n'
+    else:
+        line = '    a1 %s' % render_type(decl['t'], 'stone_cfg', schema)
+        if decl['d']['k'] != 'absent':
+            line += ' = ' + render_lit(decl['d'])
+        cfg = 'namespace stone_cfg\n\nimport nsb\n\nstruct Route\n%s\n' % line
     route = 'namespace nsa\n\nroute r1(Void, Void, Void)\n'
     if l['k'] != 'absent':
         route += '    attrs\n        a1 = %s\n' % render_lit(l)
@@ -100,6 +103,42 @@ def annot_specs(vec):
             ('nsc.stone', 'namespace nsc\n\nannotation Nc = Deprecated()\n')]
 
 
+DEF_ARGS = {'none': '', 'pos_s': '"a"', 'pos_i': '1', 'pos_ii': '1, 2', 'pos_ss': '"a", "b"', 'pos_iii': '1, 2, 3',
+            'kw_importance': 'importance="x"', 'kw_xy': 'x=1, y=2', 'kw_x': 'x=1', 'kw_zz': 'zz="x"', 'mixed': '1, y=2'}
+
+
+def anndef_specs(vec):
+    a = ['namespace nsa', '', 'import nsb', '', 'annotation_type Note', '    importance String = "low"', '',
+         'annotation_type Pair', '    x Int32', '    y Int32', '', 'struct Sx', '    x Int32', '',
+         'annotation Probe = %s(%s)' % (vec['r'], DEF_ARGS[vec['a']]), '',
+         'struct Holder', '    h String', '        @Probe', '']
+    return [('nsa.stone', '\n'.join(a)),
+            ('nsb.stone', 'namespace nsb\n\nannotation_type NoteB\n    level Int32 = 1\n'),
+            ('nsc.stone', 'namespace nsc\n\nannotation_type NoteC\n    z Int32 = 1\n')]
+
+
+def badtype_specs(vec):
+    site, n = vec['site'], vec['n']
+    a = ['namespace nsa', '', 'import nsb', '', 'annotation Dep = Deprecated()', '', 'annotation_type Note',
+         '    importance String = "low"', '', 'alias Aa = String', '', 'route ra(Void, Void, Void)', '']
+    if site == 'field':
+        a += ['struct Holder', '    h %s' % n, '']
+    elif site == 'field_nullable':
+        a += ['struct Holder', '    h %s?' % n, '']
+    elif site == 'field_example':
+        a += ['struct Holder', '    h %s' % n, '    example default', '        h = %s' % ('default' if n == 'nsb.Tb' else '"x"'), '']
+    elif site == 'tag':
+        a += ['union Holder', '    v', '    h %s' % n, '']
+    elif site == 'alias':
+        a += ['alias Holder = %s' % n, '']
+    elif site == 'route_arg':
+        a += ['route rb(%s, Void, Void)' % n, '']
+    elif site == 'list_item':
+        a += ['struct Holder', '    h List(%s)' % n, '']
+    return [('nsa.stone', '\n'.join(a)),
+            ('nsb.stone', 'namespace nsb\n\nannotation Fo = Omitted("f")\n\nstruct Tb\n    x Int32\n    example default\n        x = 1\n')]
+
+
 class LitJudge(Judge):
     """params: {'prop': 'C01'|'C03'}"""
 
@@ -134,6 +173,12 @@ class LitJudge(Judge):
         elif mode == 'docref':
             specs = docref_specs(obj)
             what = 'doc reference :%s:`%s` in the docstring of a %s' % (obj['tag'], payload_text(obj['p']), obj['site'])
+        elif mode == 'anndef':
+            specs = anndef_specs(obj)
+            what = 'annotation definition `annotation Probe = %s(%s)`' % (obj['r'], DEF_ARGS[obj['a']])
+        elif mode == 'badtype':
+            specs = badtype_specs(obj)
+            what = 'the name %s written as the type of a %s' % (obj['n'], obj['site'])
         elif mode == 'annot':
             specs = annot_specs(obj)
             what = 'annotation(s) %s on %s of type %s' % (
